@@ -106,6 +106,7 @@ func buildMem(target, param string) (*memVictim, error) {
 	hb, ha, hs := mk(1)
 	ab, aa, _ := mk(2)
 	mv := &memVictim{attacker: ab, attackerAsk: aa, victimInner: vb.LocalAddrs()[0]}
+	bg, bgCancel := context.WithCancel(context.Background())
 	layer := func(s stack.Swarm, a stack.AskBidi, sec stack.Sec, key int) (stack.Swarm, stack.AskBidi, error) {
 		switch target {
 		case "frag":
@@ -126,11 +127,11 @@ func buildMem(target, param string) (*memVictim, error) {
 			for _, extra := range chans[1:] {
 				extra := extra
 				go func() {
-					for extra.Receive(context.Background(), func(stack.Msg) {}) == nil {
+					for extra.Receive(bg, func(stack.Msg) {}) == nil {
 					}
 				}()
 				go func() {
-					for extra.(stack.AskBidi).ServeAsk(context.Background(), func(context.Context, []byte, stack.Msg) int { return 0 }) == nil {
+					for extra.(stack.AskBidi).ServeAsk(bg, func(context.Context, []byte, stack.Msg) int { return 0 }) == nil {
 					}
 				}()
 			}
@@ -153,9 +154,15 @@ func buildMem(target, param string) (*memVictim, error) {
 	}
 	mv.victimTop = mv.victim.LocalAddrs()[0]
 	mv.close = func() {
-		mv.victim.Close()
-		mv.honest.Close()
-		ab.Close()
+		bgCancel()
+		// the base nodes are closed explicitly: a multiplexer channel's Close leaves the transport
+		// (and the multiplexer's loops on it) running
+		for _, x := range []stack.Swarm{mv.victim, mv.honest, ab, vb, hb} {
+			func() {
+				defer func() { recover() }()
+				x.Close()
+			}()
+		}
 	}
 	return mv, nil
 }
@@ -226,12 +233,21 @@ func runMemCase(c crashCase) string {
 	if c.Target == "mux" || c.Target == "multi" || c.Target == "p2pkeswarm" {
 		probe = probe[:1000]
 	}
-	deadline := time.Now().Add(3 * time.Second)
-	for time.Now().Before(deadline) {
+	// Limits are patient: what a responsive machine is given; a stalled machine gets longer, and a case
+	// that still cannot be judged is skipped ("skip:" answers are counted, not failed).
+	probeStart := time.Now()
+	inTime := func() bool {
+		el := time.Since(probeStart)
+		return el < 3*time.Second || (ev.Stalled(probeStart) && el < ev.Extended(3*time.Second))
+	}
+	for inTime() {
 		pctx, cf := context.WithTimeout(ctx, time.Second)
 		err := mv.honest.Tell(pctx, mv.victimTop, p2p.IOVec{probe})
 		cf()
 		if err != nil {
+			if ev.Stalled(probeStart) {
+				continue
+			}
 			return "valid message refused after the hostile input: " + err.Error()
 		}
 		ok := false
@@ -250,15 +266,22 @@ func runMemCase(c crashCase) string {
 		if ok {
 			if mv.honestAsk != nil {
 				resp := make([]byte, 64)
-				actx, acf := context.WithTimeout(ctx, 2*time.Second)
+				askStart := time.Now()
+				actx, acf := context.WithTimeout(ctx, ev.Extended(2*time.Second))
 				n, err := mv.honestAsk.Ask(actx, resp, mv.victimTop, p2p.IOVec{[]byte("ping")})
 				acf()
-				if err != nil || string(resp[:n]) != "pong" {
+				if err != nil || string(resp[:max(n, 0)]) != "pong" {
+					if err != nil && ev.Stalled(askStart) {
+						return "skip: machine stalled while the honest ask was pending"
+					}
 					return fmt.Sprintf("valid ask no longer served after the hostile input: %q %v", resp[:max(n, 0)], err)
 				}
 			}
 			return ""
 		}
+	}
+	if ev.Stalled(probeStart) {
+		return "skip: machine stalled while the probe was pending"
 	}
 	return "a valid message is no longer delivered after the hostile input"
 }
@@ -372,7 +395,8 @@ func runChannelCase(c crashCase) string {
 	b = mk(1, &a, nil)
 	defer a.Close()
 	defer b.Close()
-	ctx, cf := context.WithTimeout(context.Background(), 3*time.Second)
+	chanStart := time.Now()
+	ctx, cf := context.WithTimeout(context.Background(), ev.Extended(3*time.Second))
 	defer cf()
 	if c.Param == "established" {
 		if err := a.Send(ctx, p2p.IOVec{[]byte("hello")}); err != nil {
@@ -382,20 +406,27 @@ func runChannelCase(c crashCase) string {
 	for _, p := range c.Packets {
 		b.Deliver(nil, unhex(p))
 	}
-	if err := a.Send(ctx, p2p.IOVec{[]byte("after")}); err != nil {
+	sendDone := make(chan error, 1)
+	go func() { sendDone <- a.Send(ctx, p2p.IOVec{[]byte("after")}) }()
+	if err, returned := ev.PatientRecv(3*time.Second, sendDone); !returned || err != nil {
+		if !returned {
+			err = context.DeadlineExceeded
+		}
 		return "Send no longer completes after hostile input: " + err.Error()
 	}
-	for i := 0; i < 2000; i++ {
+	if ev.Patient(2*time.Second, func() bool {
 		mu.Lock()
+		defer mu.Unlock()
 		for _, g := range gotB {
 			if g == "after" {
-				mu.Unlock()
-				return ""
+				return true
 			}
 		}
-		mu.Unlock()
-		time.Sleep(time.Millisecond)
+		return false
+	}) {
+		return ""
 	}
+	_ = chanStart
 	return "data no longer delivered after hostile input"
 }
 
@@ -541,12 +572,15 @@ func execute(t *rapid.T, sub string, c crashCase, nontrivial bool) {
 			ev.Sample(sub, c.String())
 		}
 	}
-	res := client(sub).Run(c, 30*time.Second)
+	res := client(sub).Run(c, 120*time.Second)
 	switch {
 	case res.OK:
 		return
+	case strings.HasPrefix(res.Message, "skip:"):
+		ev.Class(sub, "not-judged:"+strings.TrimPrefix(res.Message, "skip: "))
+		return
 	case res.Infra:
-		t.Fatalf("VERIF-INCONCLUSIVE worker could not be started: %s", res.Message)
+		t.Fatalf("VERIF-INCONCLUSIVE worker unavailable (could not be started, or was killed from outside): %s", res.Message)
 	case res.Died:
 		t.Fatalf("the process died while handling hostile input: %s\ncase: %v", res.Message, c)
 	case res.Timeout:
